@@ -738,14 +738,21 @@ func (n *NamespaceManager) ConfigFingerprint() string {
 // username+password是全局唯一的, 而username可以对应多个namespace
 type UserManager struct {
 	users          map[string][]string // key: user name, value: user password, same user may have different password, so array of passwords is needed
-	userNamespaces map[string]string   // key: UserName+Password, value: name of namespace
+	userNamespaces map[userKey]string  // key: UserName+Password, value: name of namespace
+}
+
+// userKey identifies a credential. It is a struct and not a joined string because user names and
+// passwords may contain any character, including a separator.
+type userKey struct {
+	username string
+	password string
 }
 
 // NewUserManager constructor of UserManager
 func NewUserManager() *UserManager {
 	return &UserManager{
 		users:          make(map[string][]string, 64),
-		userNamespaces: make(map[string]string, 64),
+		userNamespaces: make(map[userKey]string, 64),
 	}
 }
 
@@ -787,7 +794,7 @@ func (u *UserManager) ClearNamespaceUsers(namespace string) {
 			delete(u.userNamespaces, key)
 
 			// delete user password in users
-			username, password := getUserAndPasswordFromKey(key)
+			username, password := key.username, key.password
 			passwords := u.users[username]
 			var newPasswords []string
 			for _, pwd := range passwords {
@@ -864,13 +871,8 @@ func (u *UserManager) GetNamespaceByUser(userName, password string) string {
 	return ""
 }
 
-func getUserKey(username, password string) string {
-	return username + ":" + password
-}
-
-func getUserAndPasswordFromKey(key string) (username string, password string) {
-	strs := strings.Split(key, ":")
-	return strs[0], strs[1]
+func getUserKey(username, password string) userKey {
+	return userKey{username: username, password: password}
 }
 
 const (
